@@ -206,6 +206,21 @@ CHECKS = {
         technique="TLA+ model of file-system layouts and the resolution steps (InputFile.tla), TLC; every model behaviour "
                   "replayed on real directories",
         ref="DESIGN.md §5 C15"),
+    'C16': dict(
+        text="LegacyApi.tla defines every pylatexenc-2 entry point (get_token, get_latex_expression with/without "
+             "strict_braces, get_latex_braced_group, get_latex_maybe_optional_arg, get_latex_nodes with its stop conditions) "
+             "as an invocation of an operator of the reference parser from a start position plus the translation to the "
+             "legacy (node, pos, len) convention / documented empty result; TLC evaluates every (string, start position, "
+             "call variant), strict and tolerant, and the real legacy calls must return exactly the same (raise exactly when "
+             "the model raises, at the same position); read_max_nodes and get_latex_environment are compared with the "
+             "equivalent new-API invocation; every argument string over {*,[,{} through 5-6 spellings (new-style, "
+             "std_macro, args_parser string, MacroStandardArgsParser) must give the tree the reference parser predicts for "
+             "the declared signature on every string of argument material.",
+        note="Bounded: strings <=2/3 atoms over 18 atoms x every start position x 14 call variants x 2 modes; argument "
+             "strings up to length 3/4 with documents of <=3/4 argument atoms. Error kinds are not compared.",
+        technique="TLA+ definition of the legacy calls over the reference parser (LegacyApi.tla), TLC; exact replay into the "
+                  "real legacy API; differential against the new API",
+        ref="DESIGN.md §5 C16"),
     'C17': dict(
         text="TLC checks Cached (cached tables = tables recomputed from the fields) and BehavesLikeFresh on a model of "
              "sub_context() with its per-group recompute-or-inherit rules for every chain up to the bound; the "
